@@ -107,7 +107,7 @@ def draw(rng, i):
         return case
     if i % 97 == 5:
         k = rng.randint(1, 5)
-        return {"kind": "numitems", "alg": "numitems", "k": k, "index": rng.randrange(k), "values": [rng.randint(0, 9) for _ in range(rng.randint(0, 6))]}
+        return {"kind": "numitems", "alg": "numitems", "k": k, "index": rng.choice([rng.randrange(k), 0, -1, k - 1, k, k + 3]), "values": [rng.randint(0, 9) for _ in range(rng.randint(0, 6))]}
     alg = C.PACKERS[i % 5]
     if i % 50 == 7:
         # bin size 0: every positive item is oversize
